@@ -27,7 +27,12 @@ HEADERS = ["", "x y e", "# already commented", "line1\nline2", "\nleading newlin
            "mac\rline\rbreaks", "7 8 9\r", "page 1\x0c7 8 9", "vt\x0b1 2 3", "fs\x1c4 5 6", "gs\x1d1 1 1",
            "rs\x1e2 2 2", "us\x1f3 3 3", "del\x7f", "bell\x07 1 2 3", "nul\x00x"]
 UNITS = ["counts", "dimensionless", "m", "angstrom", "us", "meV", None]
-REFUSALS = ["no_variances", "bin_edges", "mask", "ndim0", "ndim2", "no_coord", "ambiguous"]
+REFUSALS = ["no_variances", "bin_edges", "mask", "mask_true", "mask_scalar", "mask_scalar_false", "mask_two",
+            "ndim0", "ndim2", "no_coord", "ambiguous"]
+# coordinate names end up in the generated header
+HOSTILE_NAMES = ["a\r7 8 9", "a\n7 8 9", "a\r\n1 2 3\r", "# x", "1 2 3", "\r", "t o f", "x\x0b1 1 1", "x\x0c2 2 2",
+                 "x\x1c1 1 1", "x\x1e1 1 1", "caf\u00e9", "\u03bb [\u00c5]", "q\x851 2 3", "q\u20281 2 3", "w" * 300, "'", "\"",
+                 "x\ty", "nul\x00x"]
 
 
 def _ulp_dist(a: np.ndarray, b: np.ndarray) -> np.ndarray:
@@ -46,7 +51,7 @@ class XyeEngine(Engine):
         "incl. subnormal, +-max, -0.0; 1..5 coordinates; chosen or deduced coordinate; header "
         "default / empty / seeded ASCII incl. newlines, '#', number-like lines) saved through a "
         "SimStringIO or a real path and loaded back (same process; for paths also in a freshly "
-        "forked process), or one of the seven refusal cases; fault plans: none, ENOSPC at every "
+        "forked process), or one of the eleven refusal cases (incl. 0-d masks); coordinate names incl. control characters and non-ASCII text (they end up in the generated header); fault plans: none, ENOSPC at every "
         "write ordinal of the sink (enumerated for small tables), RLIMIT_FSIZE disk-full at seeded "
         "offsets on paths, each followed by one retry. Distinct = distinct scenario digest; "
         "non-trivial = a round trip with >= 2 rows was compared bit-for-bit, or a refusal was "
@@ -88,6 +93,8 @@ class XyeEngine(Engine):
 
     def generate(self, rng, tier, i):
         scn = self._gen_one(rng, tier)
+        if rng.random() < 0.1:
+            scn["locale"] = "C"  # default text encoding of open() is strict ASCII
         if scn["kind"] == "roundtrip" and rng.random() < 0.35:
             # the same target is written again with other data (and loaded again)
             second = self._gen_one(rng, tier)
@@ -110,8 +117,11 @@ class XyeEngine(Engine):
         n_coords = rng.choice([1, 1, 2, 3, 5])
         dim = rng.choice(["x", "tof", "dspacing", "two_theta"])
         names = [dim] + ["c%d" % k for k in range(1, n_coords)]
-        if rng.random() < 0.3:
+        r0 = rng.random()
+        if r0 < 0.2:
             names[0] = "other"  # no dimension-coordinate
+        elif r0 < 0.35:
+            names[0] = rng.choice(HOSTILE_NAMES)  # text that ends up in the generated header
         coords = {}
         for nm in names:
             coords[nm] = {"unit": rng.choice(UNITS),
@@ -209,6 +219,16 @@ class XyeEngine(Engine):
             da.coords[first] = sc.array(dims=[dim], values=np.concatenate([c.values, [0.0]]), unit=c.unit)
             coord_arg = first
         elif rf == "mask":
+            da.masks["m"] = sc.array(dims=[dim], values=np.zeros(n, dtype=bool))
+        elif rf == "mask_true":
+            da.masks["m"] = sc.array(dims=[dim], values=np.arange(n) % 2 == 0)
+        elif rf == "mask_scalar":
+            # what slicing one spectrum out of 2-d data with a per-spectrum mask leaves behind
+            da.masks["bad_detector"] = sc.scalar(True)
+        elif rf == "mask_scalar_false":
+            da.masks["bad_detector"] = sc.scalar(False)
+        elif rf == "mask_two":
+            da.masks["flag"] = sc.scalar(True)
             da.masks["m"] = sc.array(dims=[dim], values=np.zeros(n, dtype=bool))
         elif rf == "ndim0":
             da = sc.DataArray(sc.scalar(1.0, variance=1.0), coords={"x": sc.scalar(2.0)})
@@ -384,6 +404,8 @@ class XyeEngine(Engine):
         target = self._target(scn, ctx)
         exc = self._save(scn, ctx, target)
         if exc is not None:
+            if self._unencodable_here(scn, ctx, exc):
+                return
             ctx.violate("save_raised", f"fault-free save_xye raised {exc}", kind="save_raised",
                         exc=exc.name)
             return
@@ -435,6 +457,27 @@ class XyeEngine(Engine):
             else:
                 self._load_and_compare(scn, ctx, self._target(scn, ctx), "retry")
 
+    def _unencodable_here(self, scn, ctx, exc, locale=None) -> bool:
+        """In a process whose default text encoding is ASCII (scenario knob locale=C) a file
+        opened by path cannot take non-ASCII header text (a user header, or the generated one
+        with units such as the micro sign or a non-ASCII coordinate name): the loud
+        UnicodeEncodeError is the environment's answer, not a statement about the table, and
+        the property does not quantify over process locales.  Anything else still counts."""
+        if (locale or scn.get("locale")) != "C" or scn["sink"] == "mem" or exc.name != "UnicodeEncodeError":
+            return False
+        import scipp as sc
+
+        if scn["header"] == "$default":
+            sel = self._selected(scn)
+            text = f"{sel} {sc.Unit(scn['coords'][sel]['unit']) if scn['coords'][sel]['unit'] else ''} " \
+                   f"{sc.Unit(scn['unit']) if scn['unit'] else ''}"
+        else:
+            text = scn["header"]
+        if text.isascii():
+            return False
+        ctx.probe("locale_C_nonascii_header_refused_loudly")
+        return True
+
     def _second_write(self, scn, ctx, target):
         """Same target, other data: what is loaded afterwards must be the new table."""
         s2 = scn["second"]
@@ -446,6 +489,8 @@ class XyeEngine(Engine):
         exc = self._save(s2, ctx, target, label="save_second_dataset_same_target")
         ctx.probe("target_rewritten_with_other_data")
         if exc is not None:
+            if self._unencodable_here(s2, ctx, exc, locale=scn.get("locale")):
+                return
             ctx.violate("save_raised", f"second save_xye to the same target raised {exc}", kind="save_raised",
                         exc=exc.name)
             return
